@@ -57,3 +57,298 @@ def policy(members):
         # a definition whose constraint-field id is the name of a top-level member of the introspection answer
         pol["ovr_" + m] = {"organization": pd("pd-ovr_" + m, [d_org(extra=m)])}
     return pol
+
+
+# ------------------------------------------------------------------------------------------ driver plumbing
+
+STATIC_MEMBERS = ["active", "aud", "client_id", "cnf", "exp", "iat", "iss", "jti", "nbf", "presentation_definitions",
+                  "presentation_submissions", "scope", "sub", "token_type", "username", "vps"]   # = Members of the cfgs
+EXTRA_CLAIM = "org_alias"     # a definition variant with one more, harmless claim
+
+
+def driver_input(scripts, members, mode="run", mutant=""):
+    return dict(mode=mode, policy=policy(sorted(set(members) | {EXTRA_CLAIM})), scripts=scripts, unit=UNIT, token_ttl=TOKEN_TTL,
+                members=sorted(members), mutant=mutant)
+
+
+def discover(binary):
+    """Which top-level members does the node's (extended) introspection answer really have?"""
+    res = vlib.run_driver(binary, driver_input([], STATIC_MEMBERS, mode="discover"), timeout=120)
+    if not res or res[0].get("error") or not res[0].get("members"):
+        raise Inconclusive("baseline request / introspection did not work: %s" % (res[0].get("error") if res else "no result"))
+    return res[0]["members"]
+
+
+# ------------------------------------------------------------------------------------------ behaviours
+
+CRED_FLAGS = {"vcsig", "revoked", "expired"}
+
+
+def concretise(beh, rnd, family, idx):
+    """Adds the concrete choices the model abstracts from (seeded): proof formats, defect variants, definition size."""
+    steps = []
+    fmt_all = rnd.choice(["ldp", "jwt"])
+    pd2 = rnd.random() < 0.25
+    for st in beh:
+        st = dict(st)
+        if st["a"] in ("S2SToken", "AuthzResponse"):
+            if family != "win":
+                st["fmt"] = fmt_all if rnd.random() < 0.8 else rnd.choice(["ldp", "jwt"])
+            st["vcfmt"] = rnd.choice(["ldp", "jwt"])
+            st["var"] = {f: rnd.randrange(6) for f in st.get("d", [])}
+            st["var"]["issuer"] = rnd.randrange(2)
+            st["pd2"] = bool(pd2 and st.get("def", "plain") == "plain" and "partial" not in st.get("d", []))
+        if st["a"] == "CodeToken":
+            st["var"] = {f: rnd.randrange(6) for f in st.get("d", [])}
+        steps.append(st)
+    return dict(id="%s-%05d" % (family, idx), steps=steps, realtime=(family == "win"))
+
+
+def interesting_window(b):
+    return any(s["a"] == "S2SReplay" and s.get("res") == "issued" for s in b)
+
+
+def pick(behaviours, n, rnd, must=None):
+    """n behaviours, seeded; `must` selects behaviours that are always taken (capped at n)."""
+    behaviours = sorted((b for b in behaviours if b), key=lambda b: json.dumps(b, sort_keys=True))
+    first = [b for b in behaviours if must and must(b)]
+    rest = [b for b in behaviours if not (must and must(b))]
+    rnd.shuffle(first)
+    rnd.shuffle(rest)
+    return (first + rest)[:n] if len(first) < n else first[:n]
+
+
+def gen_exhaustive(cfg, workers=2):
+    g = vlib.tlc("MCOAuth", cfg, workers=workers, timeout=900)
+    if not g.ok:
+        raise Inconclusive("generation run %s failed: %s %s\n%s" % (cfg, g.violation, g.error, g.raw[-1500:]))
+    return g, vlib.dedupe_maximal(g.printed)
+
+
+def gen_simulate(cfg, n, depth, seed):
+    s = vlib.tlc("MCOAuth", cfg, workers=1, simulate="num=%d" % n, depth=depth, seed=seed, timeout=600)
+    if s.error and "timeout" in s.error:
+        raise Inconclusive(s.error)
+    if s.violation:
+        raise Inconclusive("simulation %s: %s" % (cfg, s.violation))
+    return s, vlib.dedupe_maximal(s.printed)
+
+
+def check_model(cfg, workers=2, coverage=False):
+    m = vlib.tlc("MCOAuth", cfg, workers=workers, timeout=1800, coverage=coverage)
+    if m.error:
+        raise Inconclusive("TLC %s: %s\n%s" % (cfg, m.error, m.raw[-1500:]))
+    if m.violation:
+        raise Inconclusive("the prescriptive model %s violates %s:\n%s" % (cfg, m.violation, m.raw[-3000:]))
+    return m
+
+
+# ------------------------------------------------------------------------------------------ verdicts
+
+def sig_of(v):
+    return dict(v.get("sig") or {}, kind=v["kind"])
+
+
+def trace_sigs(inv, ev):
+    """Signature(s) of a property invariant that failed on a state reconstructed from a real execution."""
+    if ev is None:
+        return [dict(kind="trace-invariant:" + inv)]
+    e = ev.get("ev")
+    if inv == "IssuedOnlyIfClean":
+        if e == "s2s":
+            return [dict(kind="issued-with-defect", flow="s2s", defect="+".join(sorted(ev.get("d", []))) or "nonce-reuse")]
+        if e == "s2sreplay":
+            return [dict(kind="issued-with-defect", flow="s2s", defect="replay", fmt=ev.get("fmt"), postdated=ev.get("fut", 0) > 0)]
+        if e == "codetoken":
+            return [dict(kind="issued-with-defect", flow="code", defect="+".join(sorted(ev.get("d", []))) or "response")]
+    if inv == "ReservedClaimsNotOverridable" and e == "introspect":
+        est = ev.get("over_est", [])
+        return [dict(kind="claim-overrides-standard-member" if m in est else "claim-injects-standard-member", member=m) for m in ev.get("over", [])]
+    if inv == "IntrospectSound" and e == "introspect":
+        if ev.get("nclaims") == "dropped":
+            return [dict(kind="introspection-claims-missing", endpoint="introspect_extended" if ev.get("ext") else "introspect")]
+        return [dict(kind="introspection-mismatch", member=m) for m in ("iss", "client", "scope", "cnf") if ev.get(m) == "other"] or \
+               [dict(kind="trace-invariant:" + inv)]
+    if inv == "ActiveOnlyIfLive":
+        return [dict(kind="active-not-live")]
+    return [dict(kind="trace-invariant:" + inv)]
+
+
+def _t(label, t0):
+    if os.environ.get("VERIF_TIMING"):
+        print("TIMING %-28s %6.1fs" % (label, time.time() - t0))
+
+
+def run(prop, tier, seed, replay=None):
+    t0 = time.time()
+    rep = Report(prop)
+    binary = vlib.build_driver(DRIVER)
+    if replay:
+        obj = json.load(open(replay))
+        res = vlib.run_driver(binary, obj["input"], timeout=300)
+        for r in res:
+            print(json.dumps(dict(id=r["id"], error=r.get("error"), violations=r["violations"], observed=r.get("observed")))[:6000])
+            if r.get("error"):
+                rep.inconclusive.append("replay: " + r["error"])
+            for v in r["violations"]:
+                rep.violation(sig_of(v), obj)
+        return rep.finish()
+
+    quick = tier == "quick"
+    rnd = random.Random(seed)
+    _t("build", t0)
+    members = discover(binary)
+    _t("discover", t0)
+    new_members = sorted(set(members) - set(STATIC_MEMBERS))
+    for m in new_members:
+        rep.notes.append("DRIFT: the introspection answer has a top-level member %r the specification does not list (Members)" % m)
+    all_members = sorted(set(STATIC_MEMBERS) | set(members))
+
+    # ---- 1. TLC: the prescriptive design satisfies C02 (exhaustive); behaviours from the descriptive model
+    from concurrent.futures import ThreadPoolExecutor
+    checks = ["OAuth.s2s.quick.cfg", "OAuth.s2s.pairs.quick.cfg", "OAuth.win.check.cfg", "OAuth.code.quick.cfg", "OAuth.ovr.check.cfg"] if quick else \
+             ["OAuth.s2s.thorough.cfg", "OAuth.win.check.cfg", "OAuth.code.thorough.cfg", "OAuth.ovr.check.cfg"]
+    gens = ["OAuth.s2s.gen.pairs.cfg", "OAuth.win.gen.cfg", "OAuth.code.gen.cfg", "OAuth.code.gen.pairs.cfg", "OAuth.ovr.gen.cfg"]
+    if not quick:
+        gens.append("OAuth.s2s.gen.seq.cfg")
+    with ThreadPoolExecutor(max_workers=3 if quick else 2) as ex:
+        fc = {c: ex.submit(check_model, c, 2 if quick else 4, not quick) for c in checks}
+        fg = {g: ex.submit(gen_exhaustive, g, 2) for g in gens}
+        fs = ex.submit(gen_simulate, "OAuth.s2s.gen.seq.cfg", 400, 5, seed) if quick else None
+        models, cover = [], {}
+        states = transitions = 0
+        for c in checks:
+            m = fc[c].result()
+            states += m.distinct
+            transitions += m.generated
+            models.append(dict(cfg=c, states=m.distinct, transitions=m.generated, depth=m.depth, wall_s=round(m.wall, 1)))
+            for k, v in m.coverage.items():
+                cover[k] = cover.get(k, 0) + v
+        behaviours = {g: fg[g].result()[1] for g in gens}
+        if fs is not None:
+            behaviours["OAuth.s2s.gen.seq.cfg"] = fs.result()[1]
+    if not quick:
+        dead = [a for a in ("S2SDo", "S2SReplayDo", "Authorize", "AuthzDo", "CodeDo", "IntrospectDo", "Tick", "Age") if cover.get(a, 0) == 0]
+        if dead:
+            raise Inconclusive("vacuity: actions never fired in the model runs: %s (%s)" % (dead, cover))
+
+    _t("tlc", t0)
+    # ---- 2. selection (seeded) and concretisation
+    n = dict(pairs_single=10 ** 6, pairs=220, seq=260, win=36, code=160, codepairs=120, ovr=10 ** 6) if quick else \
+        dict(pairs_single=10 ** 6, pairs=10 ** 6, seq=5000, win=260, code=10 ** 6, codepairs=10 ** 6, ovr=10 ** 6)
+    fam = {}
+    pb = behaviours["OAuth.s2s.gen.pairs.cfg"]
+    singles = [b for b in pb if all(len(s.get("d", [])) <= 1 for s in b)]
+    pairs = [b for b in pb if any(len(s.get("d", [])) > 1 for s in b)]
+    fam["s2s1"] = pick(singles, n["pairs_single"], rnd)
+    fam["s2s2"] = pick(pairs, n["pairs"], rnd)
+    fam["seq"] = pick(behaviours["OAuth.s2s.gen.seq.cfg"], n["seq"], rnd)
+    fam["win"] = pick([b for b in behaviours["OAuth.win.gen.cfg"] if any(s["a"] == "S2SReplay" for s in b)], n["win"], rnd, must=interesting_window)
+    fam["code"] = pick(behaviours["OAuth.code.gen.cfg"], n["code"], rnd, must=lambda b: any(s["a"] == "Introspect" and s.get("res") == "active" for s in b))
+    fam["code2"] = pick(behaviours["OAuth.code.gen.pairs.cfg"], n["codepairs"], rnd)
+    ovr = [b for b in behaviours["OAuth.ovr.gen.cfg"] if len(b) > 1 and b[0]["a"] == "S2SToken" and all(s["a"] == "Introspect" for s in b[1:])]
+    # every variant is introspected through both endpoints
+    ovr2 = []
+    for b in ovr:
+        ovr2.append(b)
+    for m in new_members:   # members the cfg does not know: same behaviours as for an unguarded name
+        for b in ovr:
+            if b[0].get("def") == "aud":
+                ovr2.append([dict(s, **({"def": m} if s["a"] == "S2SToken" else {})) for s in b])
+    fam["ovr"] = pick(ovr2, n["ovr"], rnd)
+    scripts, nowin = [], []
+    for f, bs in fam.items():
+        for i, b in enumerate(bs):
+            sc = concretise(b, rnd, f, i)
+            scripts.append(sc)
+    by_id = {s["id"]: s for s in scripts}
+
+    # ---- 3. replay on the real node (real-time scripts in one process of their own)
+    rt = [s for s in scripts if s["realtime"]]
+    other = [s for s in scripts if not s["realtime"]]
+    results = []
+    with ThreadPoolExecutor(max_workers=2) as ex:
+        f_rt = ex.submit(vlib.run_driver_parallel, binary, driver_input(rt, all_members), "scripts", max(1, min(4, len(rt) // 40 + 1)), timeout=400) if rt else None
+        f_ot = ex.submit(vlib.run_driver_parallel, binary, driver_input(other, all_members), "scripts", 4 if quick else 6, timeout=500)
+        results = f_ot.result() + (f_rt.result() if f_rt else [])
+
+    _t("driver", t0)
+    # ---- 4. verdicts from the real observables
+    nchecks = ndrift = nerr = clean_ok = clean_fail = 0
+    samples, fam_clean = [], {}
+    inp0 = driver_input([], all_members)
+    violating = set()
+    for r in results:
+        sc = by_id[r["id"]]
+        f = r["id"].split("-")[0]
+        nchecks += r.get("checks", 0)
+        ndrift += len(r.get("drift") or [])
+        clean_ok += r.get("clean_issued", 0)
+        clean_fail += r.get("clean_rejected", 0)
+        fam_clean[f] = fam_clean.get(f, 0) + r.get("clean_issued", 0)
+        if r.get("error"):
+            nerr += 1
+            rep.inconclusive.append("script %s: %s" % (r["id"], r["error"]))
+        for v in r["violations"]:
+            violating.add(r["id"])
+            rep.violation(sig_of(v), dict(property=prop, violation=v, input=dict(inp0, scripts=[sc])))
+        for dn in (r.get("drift") or [])[:1]:
+            if len(rep.notes) < 12:
+                rep.notes.append("DRIFT: %s %s" % (r["id"], dn[:300]))
+        if len(samples) < 3 and len(sc["steps"]) >= 3 and r.get("observed") and not r["violations"] and f in ("seq", "code", "win"):
+            samples.append(dict(script=sc["steps"], observed=r["observed"][:6]))
+    if nerr <= max(2, len(results) // 50):
+        rep.inconclusive = []
+    if len(results) != len(scripts):
+        rep.inconclusive.append("%d of %d scripts produced no result" % (len(scripts) - len(results), len(scripts)))
+    # vacuity: in every family valid requests must be answered with a token, otherwise nothing was tested
+    for f in ("s2s1", "seq", "code", "ovr", "win"):
+        if fam.get(f) and fam_clean.get(f, 0) == 0:
+            rep.inconclusive.append("no valid request of family %s was answered with a token (dead baseline)" % f)
+    if clean_fail > max(3, (clean_ok + clean_fail) // 20):
+        rep.inconclusive.append("%d of %d valid requests were rejected by the node (harness / code drift)" % (clean_fail, clean_ok + clean_fail))
+
+    # ---- 5. recorded traces of the real node are validated by TLC against the specification
+    good = [r for r in results if r.get("trace") and not r.get("error")]
+    traces = [r["trace"] for r in good]
+    acc, rej = vlib.validate_traces("TraceOAuth", "OAuth.trace.cfg", traces, timeout=900, batch=1500)
+    for x in rej[:5]:
+        rep.notes.append("DRIFT: trace %s is not a behaviour of the specification at event %s" % (good[x["index"]]["id"], json.dumps(x["event"])[:300]))
+    if len(rej) > max(3, len(traces) // 20) and not rep.violations:
+        rep.inconclusive.append("%d of %d recorded traces are not behaviours of the specification (spec/code drift)" % (len(rej), len(traces)))
+    # the C02 invariants on the states reconstructed from real executions; the executions the oracle above has
+    # already judged as violating are left out (TLC stops at the first violated invariant of a batch)
+    rejected_ids = {good[x["index"]]["id"] for x in rej}
+    calm = [r for r in good if r["id"] not in violating and r["id"] not in rejected_ids]
+    acc2, rej2 = vlib.validate_traces("TraceOAuth", "OAuth.trace.props.cfg", [r["trace"] for r in calm], timeout=900, batch=1500)
+    for x in rej2[:20]:
+        r = calm[x["index"]]
+        if x["kind"].startswith("invariant:"):
+            for sig in trace_sigs(x["kind"].split(":", 1)[1], x["event"]):
+                rep.violation(sig, dict(property=prop, violation=dict(kind=x["kind"], event=x["event"]), input=dict(inp0, scripts=[by_id[r["id"]]])))
+        else:
+            rep.notes.append("DRIFT: trace %s rejected at %s" % (r["id"], json.dumps(x["event"])[:200]))
+
+    _t("traces", t0)
+    cov = dict(states=states, transitions=transitions,
+               traces_validated_against_impl=acc + len(rej), traces_accepted=acc, traces_rejected=len(rej),
+               traces_checked_with_property_invariants=acc2 + len(rej2), traces_violating_property_invariants=len([x for x in rej2 if x["kind"].startswith("invariant:")]),
+               samples=samples or [scripts[0]["steps"]], models=models,
+               behaviours_available={g: len(b) for g, b in behaviours.items()},
+               behaviours_replayed_on_real_code=len(results), behaviours_per_family={f: len(b) for f, b in fam.items()},
+               requests_judged=nchecks, valid_requests_answered_with_token=clean_ok, valid_requests_rejected=clean_fail,
+               scripts_with_violation=len(violating), drift_notes=ndrift, inconclusive_scripts=nerr,
+               introspection_members_discovered=members, members_not_in_specification=new_members,
+               action_coverage=cover, exhaustive=not quick,
+               rule="TLC exhausts the prescriptive OAuth model configs listed under 'models' (IssuedOnlyIfClean, OneTokenPerNonce, CodeSingleUse, "
+                    "IntrospectFaithful, ReservedClaimsNotOverridable, NonceBurntEvenOnLaterFailure); one witness behaviour per distinct (state, request) "
+                    "of the DESCRIPTIVE model is replayed over HTTP on a whole in-process node with harness-built presentations (defect flags realised "
+                    "with seeded concrete variants, both proof formats); the statement of C02 is evaluated on the HTTP answers, the introspection JSON "
+                    "and the session store; every recorded real trace is validated by TLC against TraceOAuth.tla")
+    vlib.write_evidence(prop, tier, seed, "model_checking", cov, time.time() - t0, len(rep.violations),
+                        ["jwx / json-gold verify signatures correctly (C01, C17 cover the verifier)",
+                         "small scope: <= 2 defect flags per request, <= 2 nonces, <= 2 sessions, behaviours of <= 4-6 steps",
+                         "token expiry is realised by moving issued_at/expiration of the stored token back; presentation and nonce windows use real time (5 s units)",
+                         "in-memory session store (the node's default); Redis / memcached backends are not exercised",
+                         "the user-wallet leg of OpenID4VP and the legacy v1 JWT-bearer grant (auth/services/oauth) are not driven"])
+    return rep.finish()
